@@ -188,6 +188,13 @@ func (StepMonitor) OnWrite(x *Ctx, w *Write) {
 				return
 			}
 		}
+		// a status write that records a new plan hash is the plan-change handler recomputing the cursor after a plan
+		// edit (it may mark the step Ready so that the next reconcile re-enters the step it computed): not a decision
+		// of the pause gate (the same excuse as in C03's routed-report rule)
+		if sb, sa := before.Status.GetSubStatus(), after.Status.GetSubStatus(); sb != nil && sa != nil && sb.RolloutHash != sa.RolloutHash && requested(x.Mon, "editPlan") {
+			x.Count("C02 cursor recomputations after a plan change (not a pause-gate decision)")
+			return
+		}
 		if step.Pause.Duration == nil {
 			x.Violate("C02/step/manual-pause-skipped", fmt.Sprintf("step %d requires manual approval but the controller moved StepPaused -> StepReady by itself", ai))
 			return
